@@ -21,7 +21,9 @@ pub struct SecPlan { stream_format: bool, mentions: Vec<(u32, Mention)>, split: 
     /// an update in stream format writes its cross-reference stream as a new version of the previous section's cross-reference stream object
     reuse_xref_nr: bool,
     /// a stream-format section whose entries are all ordinary in-use entries is written with /W [0 n m] (type field omitted)
-    omit_type_field: bool }
+    omit_type_field: bool,
+    /// /Index left out when it would be the default [0 Size]; 8-byte fields
+    omit_default_index: bool, wide_fields: bool }
 #[derive(Clone, Debug)]
 pub struct Plan { n_objs: u32, sections: Vec<SecPlan> }
 
@@ -138,7 +140,8 @@ pub fn build(plan: &Plan) -> Built {
         let tr: Vec<(Vec<u8>, Obj)> = vec![(b"Root".to_vec(), rf(root)), (b"Info".to_vec(), rf(info_nr)),
             (b"ID".to_vec(), Obj::Arr(vec![Obj::Str(id0.clone()), Obj::Str(b"second".to_vec())]))];
         let split: Vec<u32> = if sec.split { w.pending.keys().cloned().filter(|k| k % 2 == 1).collect() } else { vec![] };
-        w.omit_type_field = sec.omit_type_field;
+        w.omit_type_field = sec.omit_type_field; w.omit_index_when_default = sec.omit_default_index; w.wide_fields = sec.wide_fields;
+        if sec.wide_fields && xref_nr.is_some() { labels.push("xref-stream-8-byte-fields".into()); }
         if sec.omit_type_field && xref_nr.is_some() && w.pending.values().all(|e| matches!(e, mkpdf::XEntry::InUse { .. })) { labels.push("xref-stream-without-type-field".into()); }
         match xref_nr {
             Some(nr) => {
@@ -181,7 +184,7 @@ pub fn gen_plan(s: &mut Src, max_objs: u32, max_updates: u32) -> Plan {
         }
         // random order inside the section
         for i in (1..mentions.len()).rev() { let j = s.draw(i as u32 + 1) as usize; mentions.swap(i, j); }
-        sections.push(SecPlan { stream_format, mentions, split: s.draw(3) == 0, filter: s.draw(3) as u8, new_root: s.draw(6) == 0, grow: if s.draw(4) == 0 { 1 + s.draw(3) } else { 0 }, free_gen: [0u8, 0, 0, 1, 1, 2][s.draw(6) as usize], reuse_xref_nr: s.draw(4) == 0, omit_type_field: s.draw(3) == 0 });
+        sections.push(SecPlan { stream_format, mentions, split: s.draw(3) == 0, filter: s.draw(3) as u8, new_root: s.draw(6) == 0, grow: if s.draw(4) == 0 { 1 + s.draw(3) } else { 0 }, free_gen: [0u8, 0, 0, 1, 1, 2][s.draw(6) as usize], reuse_xref_nr: s.draw(4) == 0, omit_type_field: s.draw(3) == 0, omit_default_index: s.draw(2) == 0, wide_fields: s.draw(5) == 0 });
     }
     Plan { n_objs, sections }
 }
@@ -285,7 +288,7 @@ fn exhaustive(run: &Run, n_sections: usize) {
             let mut mentions = Vec::new();
             if let Some(m) = a { mentions.push((3, m)); }
             if let Some(m) = b { mentions.push((4, m)); }
-            sections.push(SecPlan { stream_format, mentions, split: false, filter: 0, new_root: false, grow: 0, free_gen: ((code_keep / 3u64.pow(sections.len() as u32)) % 3) as u8, reuse_xref_nr: (code_reuse >> sections.len()) & 1 == 1, omit_type_field: sections.len() % 2 == 1 });
+            sections.push(SecPlan { stream_format, mentions, split: false, filter: 0, new_root: false, grow: 0, free_gen: ((code_keep / 3u64.pow(sections.len() as u32)) % 3) as u8, reuse_xref_nr: (code_reuse >> sections.len()) & 1 == 1, omit_type_field: sections.len() % 2 == 1, omit_default_index: sections.len() % 2 == 0, wide_fields: false });
         }
         let plan = Plan { n_objs: 4, sections };
         // well-formedness: skip plans whose mentions would be dropped by build (compressed in a table section)
